@@ -17,6 +17,7 @@ pub fn classes_of(prop: &str) -> &'static [&'static str] {
         "C07" => &["open", "probe", "reopen_differs", "panic", "read", "crash"],
         "C11" => &["vlog_read"],
         "C15" => &["failed_visible"],
+        "C10" => &["history_after_crash", "open", "read", "vlog_read", "prefix", "durability"],
         _ => &[],
     }
 }
